@@ -282,7 +282,9 @@ def run_verus(path, timeout=600):
     try:
         p = subprocess.run(['verus', path, '--output-json', '--time', '--multiple-errors', '10'],
                            stdout=subprocess.PIPE, stderr=subprocess.PIPE, text=True, timeout=timeout,
-                           cwd=os.path.dirname(path))
+                           cwd=os.path.dirname(path),
+                           # `env!("CARGO_PKG_NAME")` / `env!("CARGO_PKG_VERSION")` in extracted text (src/main.rs) need the variables cargo would set
+                           env=dict(os.environ, CARGO_PKG_NAME=os.environ.get('CARGO_PKG_NAME', 'xt'), CARGO_PKG_VERSION=os.environ.get('CARGO_PKG_VERSION', '0.0.0')))
     except subprocess.TimeoutExpired:
         return dict(timeout=True, wall_s=time.time() - t0, stderr='', json=None, rc=None)
     out = p.stdout
